@@ -452,6 +452,52 @@ def replay(trait, s):
         shutil.rmtree(tmp, ignore_errors=True)
 
 
+def panic_smoke():
+    """AUXILIARY, not the deciding step of C17: derive inputs that are malformed in ways the kernels' encoding does not model (every variant
+    name of the macro's own `Trait` enum — also internal ones — as a trait / parameter name at every level, empty and doubled parameters,
+    wrong value kinds) go through the real macro in-process (tools/expander, catch_unwind); a panic is reported as a violation found by
+    execution.  -> (inputs, [panicking input], error)"""
+    from . import e2
+    exe, err = e2.build_expander()
+    if exe is None:
+        return 0, [], 'tools/expander does not build: ' + err[-600:]
+    src = open(os.path.join(REPO, 'src', 'supported_traits.rs')).read()
+    m = re.search(r'enum\s+Trait\s*\{(.*?)\n\}', src, re.S)
+    variants = re.findall(r'^\s*([A-Za-z_][A-Za-z0-9_]*)\s*,', m.group(1), re.M)
+    idents = variants + ['Nothing', 'Self', 'debug', 'DEBUG', 'r#Debug', 'Educe', 'educe', 'unsafe', 'bound', 'name']
+    inputs = []
+    for i in idents:
+        inputs += [f'#[educe({i})] struct S(u8);', f'#[educe(Debug, {i})] struct S(u8);', f'#[educe(Debug)] struct S(#[educe({i})] u8);', f'#[educe(Debug)] enum E {{ #[educe({i})] A(u8) }}',
+                   f'#[educe(Debug({i}))] struct S(u8);', f'#[educe(Debug({i} = 1))] struct S(u8);', f'#[educe(Debug({i}(x)))] struct S(u8);', f'#[educe({i}(name = x))] struct S(u8);',
+                   f'#[educe(Debug)] struct S(#[educe(Debug({i}))] u8);', f'#[educe({i})] union U {{ a: u8 }}', f'#[educe({i}(unsafe))] union U {{ a: u8 }}']
+    odd = ['#[educe] struct S(u8);', '#[educe()] struct S(u8);', '#[educe(Debug,,)] struct S(u8);', '#[educe(Debug(name))] struct S(u8);', '#[educe(Debug(name(1)))] struct S(u8);', '#[educe(Debug(name = 1))] struct S(u8);',
+           '#[educe(Default(expression))] struct S(u8);', '#[educe(Into)] struct S(u8);', '#[educe(Into())] struct S(u8);', '#[educe(Into(u8, u16))] struct S(u8);', '#[educe(Deref)] enum E {}', '#[educe(Ord)] struct S(#[educe(Ord(rank = 1.5))] u8);',
+           '#[educe(Ord)] struct S(#[educe(Ord(rank = "x"))] u8);', '#[educe(Ord)] struct S(#[educe(Ord(rank = -))] u8);', '#[educe(Ord)] struct S(#[educe(Ord(rank(-1, 2)))] u8);', '#[educe(Hash(unsafe, unsafe))] union U { a: u8 }',
+           '#[educe(Debug(unsafe = 1))] union U { a: u8 }', '#[educe(Debug(unsafe()))] union U { a: u8 }', '#[educe(Default)] union U { a: u8, b: u8 }', '#[educe(Default)] enum E { A, B }', '#[educe(Default)] enum E {}', '#[educe(Debug)] struct S;',
+           '#[educe(Debug(name = false))] struct S;', '#[educe(Debug(named_field = false))] struct S { a: u8 }', '#[educe(Clone(bound = 1))] struct S<T>(T);', '#[educe(Clone(bound = "T: "))] struct S<T>(T);', '#[educe(Clone(bound = "where"))] struct S<T>(T);',
+           '#[educe(Clone(bound(T)))] struct S<T>(T);', '#[educe(Clone(bound(*, *)))] struct S<T>(T);', '#[educe(Default(expression = "(")) ] struct S(u8);', '#[educe(Default = ")")] struct S(u8);', '#[educe(Default(new, new))] struct S(u8);',
+           '#[educe(Deref)] struct S(u8, u8);', '#[educe(Deref)] struct S;', '#[educe(DerefMut)] struct S(#[educe(DerefMut)] u8, #[educe(DerefMut)] u8);', '#[educe(Into(u8))] struct S;', '#[educe(Into(u8))] enum E { A }',
+           '#[educe(Into(&u8))] struct S(u8);', "#[educe(Into(&'static (dyn core::fmt::Debug + Send)))] struct S(u8);", '#[educe(Into(fn(u8) -> u8))] struct S(u8);', '#[educe(Into([u8; 2]))] struct S(u8);', '#[educe(Into((u8,)))] struct S(u8);',
+           '#[educe(PartialOrd)] enum E { A = 1, B = -1 }', '#[educe(Ord)] #[repr(u8)] enum E { A = 255, B }', '#[educe(Ord)] enum E { A = 1 + 1, B = !0 }', '#[educe(Hash)] #[repr(C, packed)] struct S(u8, u32);', '#[educe(Debug)] #[repr(packed)] struct S(u8, u32);',
+           '#[educe(Debug(method))] struct S(u8);', '#[educe(Debug)] struct S(#[educe(Debug(method))] u8);', '#[educe(Debug)] struct S(#[educe(Debug(method = 1))] u8);', '#[educe(Debug)] struct S(#[educe(Debug(method("")))] u8);', '#[educe(Debug)] struct S(#[educe(Debug(method = ""))] u8);',
+           '#[educe(Debug)] struct S(#[educe(Debug(method = "a b"))] u8);', '#[educe(Debug)] struct S(#[educe(Debug(name = ""))] u8);', '#[educe(Debug(name = ""))] struct S(u8);', '#[educe(Debug(name = "a b"))] struct S { a: u8 }', '#[educe(Debug)] struct S { #[educe(Debug(name = "1x"))] a: u8 }']
+    inputs += odd
+
+    class _R:
+        def __init__(self, i, src):
+            self.rid = f's{i}'
+            self.src = src
+
+        def source(self, with_derive=False):
+            return self.src
+    reqs = [_R(i, s) for i, s in enumerate(inputs)]
+    try:
+        res = e2.expand(exe, reqs)
+    except Exception as e:
+        return len(reqs), [], f'expander run failed: {e}'
+    return len(reqs), [r.src for r in reqs if res.get(r.rid, {}).get('panic')], ''
+
+
 def main(tier, seed, keep=False):
     t0 = time.time()
     mir, err = dump_mir()
@@ -545,6 +591,17 @@ def main(tier, seed, keep=False):
                 violations.append(dict(what=f'{name}: {desc}; #[educe({s})] on a union makes the derive panic', replay=rd))
             else:
                 inconclusive.append(f'{name}: {desc}: models {tried} do not make rustc report a proc-macro panic (environment over-approximation)')
+    n_smoke, panics, smoke_err = panic_smoke()
+    if smoke_err:
+        inconclusive.append('auxiliary panic smoke: ' + smoke_err)
+    for k, src in enumerate(panics[:5]):
+        rd = os.path.join(VERIF, 'replays', 'C17', f'smoke_{k}')
+        os.makedirs(os.path.join(rd, 'src'), exist_ok=True)
+        open(os.path.join(rd, 'Cargo.toml'), 'w').write(f'[package]\nname = "rp"\nversion = "0.0.0"\nedition = "2021"\n[dependencies]\neduce = {{ path = "{REPO}" }}\n[workspace]\n')
+        copy_lock(rd)
+        open(os.path.join(rd, 'src', 'lib.rs'), 'w').write('#![allow(dead_code)]\nuse educe::Educe;\n#[derive(Educe)]\n' + src + '\n')
+        open(os.path.join(rd, 'REPLAY.md'), 'w').write('auxiliary panic smoke (found by execution of the real macro, not by the solver)\nreplay: cargo check --offline  (expected: proc-macro derive panicked)\n')
+        violations.append(dict(what=f'the derive panics on `{src}` (auxiliary native smoke through tools/expander)', replay=rd))
     ev = dict(property_id='C17', tier=tier, seed=seed, level='model_checking', wall_s=round(time.time() - t0, 2), violations=len(violations),
               assumptions=['PARTIAL CLAIM: only the length-indexed string edits of the three *::panic::union_without_unsafe functions; the rest of C17 (arbitrary token mutations, unwraps on re-parsed fragments, stack depth, termination) is not claimed',
                            'environment: the printed attribute is <Trait> or <Trait> + empty list in (), [] or {} with optional spaces (Hash, PartialEq: `bound` is disabled on unions); for Debug, <Trait> followed by <= 43 printable ASCII characters not starting the `unsafe` form',
@@ -552,7 +609,7 @@ def main(tier, seed, keep=False):
                            'calls that do not touch the string are skipped from a whitelist; anything unknown makes the run inconclusive',
                            'MIR of rustc nightly (-Zunpretty=mir, debug-assertions off) from a scratch copy of the current tree'],
               coverage=dict(evaluations=max(obligations, 1), distinct_nontrivial=max(obligations, len(encoded)), obligations=obligations, discharged=discharged, functions_encoded=encoded, queries=queries,
-                            solver_time_s=round(solver_s, 3), samples=samples or [dict(note='no panic path or indexed edit present in the kernels', functions=encoded)],
+                            solver_time_s=round(solver_s, 3), auxiliary_native_panic_smoke=dict(inputs=n_smoke, panics=len(panics), note='executed, not solver-decided; not part of the claim'), samples=samples or [dict(note='no panic path or indexed edit present in the kernels', functions=encoded)],
                             rule='one obligation per panic-reaching path or indexed-edit precondition of each kernel; the attribute text is the SMT string variable; distinct = obligations',
                             bounds=dict(string_length='<= 48', outside=['non-ASCII attribute text', 'every other panic source of the macro']),
                             checker_cmd='z3 -in and cvc5 --strings-exp on SMT-LIB generated from the MIR; cargo check with the real proc macro per model', exhaustive=False, inconclusive=inconclusive[:10]))
